@@ -544,4 +544,163 @@ example : TransactionId.beq ⟨⟨1, 5, [5]⟩, ⟨2, 7, [0, 7]⟩⟩ ⟨⟨4, 5
 example : (rsv 2 10 (0x77 :: List.replicate 12 1)).getOriginatingTransactionId =
     .ok (some ⟨⟨8, 0x0101010101010101, List.replicate 8 1⟩, ⟨4, 0x01010101, List.replicate 4 1⟩⟩) := by decide +kernel
 
+/-! ## distinct messages of one kind never pack to the same TLV
+
+For every kind with parameters whose round trip is proved above: on the domain of that theorem the
+prescribed octets determine the parameters (`Spec.k p = Spec.k q ↔ p = q`), and so do the octets
+`pack()` returns for the objects the constructor builds. Each is a corollary of the kind's theorem:
+equal octets are received as one message, whose getter returns both parameter values. (Put cancel
+has no parameters.) -/
+
+private theorem receivedAs_unique {raw : Bytes} {r r' : ReservedCfdpMessage}
+    (h : ReceivedAs raw r) (h' : ReceivedAs raw r') : r = r' := by
+  obtain ⟨m, hm, _, hr⟩ := h
+  obtain ⟨m', hm', _, hr'⟩ := h'
+  rw [hm] at hm'
+  cases hm'
+  rw [hr] at hr'
+  cases hr'
+  rfl
+
+/-- injectivity from "built, packs to `spec p`, `spec p` is received as the built object, whose
+    getter returns `emb p`" -/
+private theorem inj_of {α β : Type} (mk : α → Py ReservedCfdpMessage) (spec : α → Bytes)
+    (get : ReservedCfdpMessage → Py (Option β)) (emb : α → β) (hemb : ∀ a b, emb a = emb b → a = b)
+    (p q : α)
+    (hp : ∃ r, mk p = .ok r ∧ PacksTo r (spec p) ∧ ReceivedAs (spec p ++ []) r ∧ get r = .ok (some (emb p)))
+    (hq : ∃ r, mk q = .ok r ∧ PacksTo r (spec q) ∧ ReceivedAs (spec q ++ []) r ∧ get r = .ok (some (emb q))) :
+    (spec p = spec q ↔ p = q) ∧
+    ∀ r r', mk p = .ok r → mk q = .ok r' → (r.pack = r'.pack ↔ p = q) := by
+  obtain ⟨r1, n1, k1, v1, g1⟩ := hp
+  obtain ⟨r2, n2, k2, v2, g2⟩ := hq
+  have main : spec p = spec q → p = q := by
+    intro h
+    rw [h] at v1
+    have e := receivedAs_unique v1 v2
+    rw [e, g2] at g1
+    have := Option.some.inj (Except.ok.inj g1)
+    exact (hemb _ _ this).symm
+  refine ⟨⟨main, fun h => by rw [h]⟩, ?_⟩
+  intro r r' hr hr'
+  rw [n1] at hr
+  rw [n2] at hr'
+  cases hr
+  cases hr'
+  constructor
+  · intro h
+    rw [k1.1, k2.1] at h
+    exact main (Except.ok.inj h)
+  · intro h
+    subst h
+    rw [n1] at n2
+    cases n2
+    rfl
+
+/-- **proxy put requests** with different parameters never share a TLV -/
+theorem C18_put_request_injective (p q : ProxyPutRequestParams) (wp : WFPutRequest p) (wq : WFPutRequest q) :
+    (Spec.putRequest p = Spec.putRequest q ↔ p = q) ∧
+    ∀ r r', ProxyPutRequest.new p = .ok r → ProxyPutRequest.new q = .ok r' → (r.pack = r'.pack ↔ p = q) := by
+  obtain ⟨r1, a1, a2, a3, _, a5⟩ := C18_put_request p wp []
+  obtain ⟨r2, b1, b2, b3, _, b5⟩ := C18_put_request q wq []
+  exact inj_of ProxyPutRequest.new Spec.putRequest (·.getProxyPutRequestParams) id (fun _ _ h => h) p q
+    ⟨r1, a1, a2, a3, a5⟩ ⟨r2, b1, b2, b3, b5⟩
+
+/-- **proxy closure requests** with different values never share a TLV -/
+theorem C18_closure_request_injective (c d : Nat) (wc : c < 2) (wd : d < 2) :
+    (Spec.closureRequest c = Spec.closureRequest d ↔ c = d) ∧
+    ∀ r r', ProxyClosureRequest.new c = .ok r → ProxyClosureRequest.new d = .ok r' → (r.pack = r'.pack ↔ c = d) := by
+  obtain ⟨r1, a1, a2, a3, _, a5⟩ := C18_closure_request c wc []
+  obtain ⟨r2, b1, b2, b3, _, b5⟩ := C18_closure_request d wd []
+  exact inj_of ProxyClosureRequest.new Spec.closureRequest (·.getProxyClosureRequested) id (fun _ _ h => h) c d
+    ⟨r1, a1, a2, a3, a5⟩ ⟨r2, b1, b2, b3, b5⟩
+
+/-- **proxy transmission modes** with different values never share a TLV -/
+theorem C18_transmission_mode_injective (c d : Nat) (wc : c < 2) (wd : d < 2) :
+    (Spec.transmissionMode c = Spec.transmissionMode d ↔ c = d) ∧
+    ∀ r r', ProxyTransmissionMode.new c = .ok r → ProxyTransmissionMode.new d = .ok r' →
+      (r.pack = r'.pack ↔ c = d) := by
+  obtain ⟨r1, a1, a2, a3, _, a5⟩ := C18_transmission_mode c wc []
+  obtain ⟨r2, b1, b2, b3, _, b5⟩ := C18_transmission_mode d wd []
+  exact inj_of ProxyTransmissionMode.new Spec.transmissionMode (·.getProxyTransmissionMode) id (fun _ _ h => h) c d
+    ⟨r1, a1, a2, a3, a5⟩ ⟨r2, b1, b2, b3, b5⟩
+
+/-- **originating transaction IDs** that differ (in a width, a value or the octets of either field)
+    never share a TLV — the request identity is faithful on the wire -/
+theorem C18_originating_id_injective (s t : TransactionId) (ws : WFTransactionId s) (wt : WFTransactionId t) :
+    (Spec.originatingId s = Spec.originatingId t ↔ s = t) ∧
+    ∀ r r', OriginatingTransactionId.new s = .ok r → OriginatingTransactionId.new t = .ok r' →
+      (r.pack = r'.pack ↔ s = t) := by
+  obtain ⟨r1, a1, a2, a3, _, a5⟩ := C18_originating_id s ws []
+  obtain ⟨r2, b1, b2, b3, _, b5⟩ := C18_originating_id t wt []
+  exact inj_of OriginatingTransactionId.new Spec.originatingId (·.getOriginatingTransactionId) id (fun _ _ h => h) s t
+    ⟨r1, a1, a2, a3, a5⟩ ⟨r2, b1, b2, b3, b5⟩
+
+/-- **directory listing requests** with different names never share a TLV -/
+theorem C18_listing_request_injective (p q : DirectoryParams) (wp : WFListingRequest p) (wq : WFListingRequest q) :
+    (Spec.listingRequest p = Spec.listingRequest q ↔ p = q) ∧
+    ∀ r r', DirectoryListingRequest.new p = .ok r → DirectoryListingRequest.new q = .ok r' →
+      (r.pack = r'.pack ↔ p = q) := by
+  obtain ⟨r1, a1, a2, a3, _, a5⟩ := C18_listing_request p wp []
+  obtain ⟨r2, b1, b2, b3, _, b5⟩ := C18_listing_request q wq []
+  exact inj_of DirectoryListingRequest.new Spec.listingRequest (·.getDirListingRequestParams) id (fun _ _ h => h) p q
+    ⟨r1, a1, a2, a3, a5⟩ ⟨r2, b1, b2, b3, b5⟩
+
+/-- **directory listing responses** that differ in the success flag or a name never share a TLV -/
+theorem C18_listing_response_injective (s t : Bool) (p q : DirectoryParams)
+    (wp : WFListingResponse p) (wq : WFListingResponse q) :
+    (Spec.listingResponse s p = Spec.listingResponse t q ↔ (s = t ∧ p = q)) ∧
+    ∀ r r', DirectoryListingResponse.new s p = .ok r → DirectoryListingResponse.new t q = .ok r' →
+      (r.pack = r'.pack ↔ (s = t ∧ p = q)) := by
+  obtain ⟨r1, a1, a2, a3, _, a5⟩ := C18_listing_response s p wp []
+  obtain ⟨r2, b1, b2, b3, _, b5⟩ := C18_listing_response t q wq []
+  have := inj_of (fun x : Bool × DirectoryParams => DirectoryListingResponse.new x.1 x.2)
+    (fun x => Spec.listingResponse x.1 x.2) (·.getDirListingResponseParams) id (fun _ _ h => h) (s, p) (t, q)
+    ⟨r1, a1, a2, a3, a5⟩ ⟨r2, b1, b2, b3, b5⟩
+  simpa only [Prod.mk.injEq] using this
+
+/-- **listing options** with a different (recursive, all) pair never share a TLV -/
+theorem C18_listing_options_injective (o o' : DirListingOptions) (wo : WFListingOptions o) (wo' : WFListingOptions o') :
+    (Spec.listingOptions o = Spec.listingOptions o' ↔ o = o') ∧
+    ∀ r r', DirectoryListingParameters.new o = .ok r → DirectoryListingParameters.new o' = .ok r' →
+      (r.pack = r'.pack ↔ o = o') := by
+  obtain ⟨r1, a1, a2, a3, _, a5⟩ := C18_listing_options o wo []
+  obtain ⟨r2, b1, b2, b3, _, b5⟩ := C18_listing_options o' wo' []
+  exact inj_of DirectoryListingParameters.new Spec.listingOptions (·.getDirListingOptions) id (fun _ _ h => h) o o'
+    ⟨r1, a1, a2, a3, a5⟩ ⟨r2, b1, b2, b3, b5⟩
+
+/-- **proxy put responses** that differ in condition code, delivery code or file status never share a TLV -/
+theorem C18_put_response_injective (cc dc fs cc' dc' fs' : Nat)
+    (w : WFPutResponse cc dc fs) (w' : WFPutResponse cc' dc' fs') :
+    (Spec.putResponse cc dc fs = Spec.putResponse cc' dc' fs' ↔ (cc = cc' ∧ dc = dc' ∧ fs = fs')) ∧
+    ∀ r r', ProxyPutResponse.new ⟨(cc : Int), dc, fs⟩ = .ok r → ProxyPutResponse.new ⟨(cc' : Int), dc', fs'⟩ = .ok r' →
+      (r.pack = r'.pack ↔ (cc = cc' ∧ dc = dc' ∧ fs = fs')) := by
+  obtain ⟨r1, a1, _, a2, a3, _, a5⟩ := C18_put_response cc dc fs w []
+  obtain ⟨r2, b1, _, b2, b3, _, b5⟩ := C18_put_response cc' dc' fs' w' []
+  have := inj_of (fun x : Nat × Nat × Nat => ProxyPutResponse.new ⟨(x.1 : Int), x.2.1, x.2.2⟩)
+    (fun x => Spec.putResponse x.1 x.2.1 x.2.2) (·.getProxyPutResponseParams)
+    (fun x : Nat × Nat × Nat => (⟨(x.1 : Int), x.2.1, x.2.2⟩ : ProxyPutResponseParams))
+    (by
+      rintro ⟨a, b, c⟩ ⟨a', b', c'⟩ h
+      simp only [ProxyPutResponseParams.mk.injEq, Int.natCast_inj] at h
+      simp only [Prod.mk.injEq]; exact h)
+    (cc, dc, fs) (cc', dc', fs') ⟨r1, a1, a2, a3, a5⟩ ⟨r2, b1, b2, b3, b5⟩
+  simpa only [Prod.mk.injEq] using this
+
+-- non-vacuity: for every kind two distinct members of the domain with different octets (they differ
+-- in one octet / one bit only)
+example : WFPutRequest ⟨⟨2, 513, [2, 1]⟩, ⟨[0x61, 0xC3]⟩, ⟨[]⟩⟩ ∧ WFPutRequest ⟨⟨2, 513, [2, 1]⟩, ⟨[0x61]⟩, ⟨[0xC3]⟩⟩ ∧
+    Spec.putRequest ⟨⟨2, 513, [2, 1]⟩, ⟨[0x61, 0xC3]⟩, ⟨[]⟩⟩ ≠ Spec.putRequest ⟨⟨2, 513, [2, 1]⟩, ⟨[0x61]⟩, ⟨[0xC3]⟩⟩ := by
+  decide
+example : Spec.closureRequest 0 ≠ Spec.closureRequest 1 ∧ Spec.transmissionMode 0 ≠ Spec.transmissionMode 1 := by decide
+example : WFTransactionId ⟨⟨2, 1, [0, 1]⟩, ⟨1, 2, [2]⟩⟩ ∧ WFTransactionId ⟨⟨1, 0, [0]⟩, ⟨2, 258, [1, 2]⟩⟩ ∧
+    Spec.originatingId ⟨⟨2, 1, [0, 1]⟩, ⟨1, 2, [2]⟩⟩ ≠ Spec.originatingId ⟨⟨1, 0, [0]⟩, ⟨2, 258, [1, 2]⟩⟩ := by
+  decide
+example : WFListingRequest ⟨⟨[0x2F, 0x61]⟩, ⟨[]⟩⟩ ∧ WFListingRequest ⟨⟨[0x2F]⟩, ⟨[0x61]⟩⟩ ∧
+    Spec.listingRequest ⟨⟨[0x2F, 0x61]⟩, ⟨[]⟩⟩ ≠ Spec.listingRequest ⟨⟨[0x2F]⟩, ⟨[0x61]⟩⟩ := by decide
+example : WFListingResponse ⟨⟨[0x2F]⟩, ⟨[0x61]⟩⟩ ∧
+    Spec.listingResponse true ⟨⟨[0x2F]⟩, ⟨[0x61]⟩⟩ ≠ Spec.listingResponse false ⟨⟨[0x2F]⟩, ⟨[0x61]⟩⟩ := by decide
+example : WFListingOptions ⟨1, 0⟩ ∧ WFListingOptions ⟨0, 1⟩ ∧ Spec.listingOptions ⟨1, 0⟩ ≠ Spec.listingOptions ⟨0, 1⟩ := by
+  decide
+example : WFPutResponse 4 1 0 ∧ WFPutResponse 4 0 2 ∧ Spec.putResponse 4 1 0 ≠ Spec.putResponse 4 0 2 := by decide
+
 end SpVerif.Props.C18
